@@ -9,9 +9,17 @@ CMDS = [("commit", "l"), ("commit", "c"), ("checkout", "l"), ("checkout", "c")]
 def make_cases(rng, tier, n):
     cases, stats = [], {}
     for i in range(n):
-        c = gen.basic_project(rng, "idem-%d" % i, tier, stats=stats)
-        first = rng.choice("lc")
-        ops = [("commit", first, [])]
+        pipe = rng.random() < 0.3
+        if pipe:
+            # one stage feeding several others: committing a subset later must not change any stage file
+            n_st = rng.choice([3, 4])
+            c = gen.pipeline_project(rng, "idem-%d" % i, n_st, tier=tier, all_edges=[(0, k) for k in range(1, n_st)])
+            first = rng.choice("lc")
+            ops = [("run", False, []), ("commit", first, [])]
+        else:
+            c = gen.basic_project(rng, "idem-%d" % i, tier, stats=stats)
+            first = rng.choice("lc")
+            ops = [("commit", first, [])]
         seq = []
         for _ in range(rng.randrange(1, 5)):
             k, s_ = rng.choice(CMDS)
@@ -38,10 +46,11 @@ def copies_present(snap, committed):
 def oracle(run):
     steps = run["steps"]
     v = []
-    if not steps or steps[0]["rc"] != 0:
+    first = 1 if steps and steps[0]["op"][0] == "run" else 0
+    if len(steps) <= first or steps[first]["rc"] != 0:
         return v
-    committed = s1eval.logical(steps[0]["snap"])
-    for i in range(1, len(steps)):
+    committed = s1eval.logical(steps[first]["snap"])
+    for i in range(first + 1, len(steps)):
         prev, cur = steps[i - 1], steps[i]
         op = cur["op"]
         what = "`%s` after `%s`" % (s1.op_text(op), " ; ".join(s1.op_text(s["op"]) for s in steps[:i]))
